@@ -30,14 +30,15 @@ print("unexplained mismatches:", len(res["unexplained_mismatches"]))
 json.dump(res["unexplained_mismatches"], open("/tmp/gt/um_%s.json" % prop, "w"), indent=1, default=str)
 for u in res["unexplained_mismatches"][:3]:
     print(json.dumps(u, default=str)[:1500])
-os.makedirs("/tmp/gt/pf", exist_ok=True)
-for f in os.listdir("/tmp/gt/pf"): os.remove("/tmp/gt/pf/" + f)
+os.makedirs("/tmp/gt/pf_" + prop, exist_ok=True)
+for f in os.listdir("/tmp/gt/pf_" + prop): os.remove("/tmp/gt/pf_" + prop + "/" + f)
 n = 0
 for key, val in ALL.items():
     if key.startswith("#"): continue
     n += 1
-    print("PROPFAIL x%d %s -> /tmp/gt/pf/%02d.json" % (ALL["#" + key][0], key, n))
-    json.dump({"signature": json.loads(key), **val[1]}, open("/tmp/gt/pf/%02d.json" % n, "w"), indent=1, default=str)
+    out_path = "/tmp/gt/pf_%s/%02d.json" % (prop, n)
+    print("PROPFAIL x%d %s -> %s" % (ALL["#" + key][0], key, out_path))
+    json.dump({"signature": json.loads(key), **val[1]}, open(out_path, "w"), indent=1, default=str)
 rc = verdict.finish()
 print("rc", rc, "wall %.1fs" % (time.time() - ctx.t0))
 if "--keep" not in sys.argv:
